@@ -31,6 +31,7 @@ func evalPure(fn *ssa.Function, args []pval, depth int) (pval, bool) {
 		return pval{}, false
 	}
 	env := map[ssa.Value]pval{}
+	elems := map[ssa.Value]pval{} // address of a constant-table element -> its value
 	for i, p := range fn.Params {
 		env[p] = args[i]
 	}
@@ -90,12 +91,34 @@ func evalPure(fn *ssa.Function, args []pval, depth int) (pval, bool) {
 					return pval{}, false
 				}
 				env[x] = r
-			case *ssa.UnOp:
-				a, ok := get(x.X)
+			case *ssa.IndexAddr:
+				// &table[i] for an effectively constant package-level array (Prog.ConstTable): remember the element
+				g, isG := x.X.(*ssa.Global)
+				if !isG || foldProg == nil {
+					return pval{}, false
+				}
+				i, ok := get(x.Index)
+				if !ok || i.isBool {
+					return pval{}, false
+				}
+				el, ok := tableElem(g, i.i)
 				if !ok {
 					return pval{}, false
 				}
+				elems[x] = el
+			case *ssa.UnOp:
+				a, ok := get(x.X)
+				if !ok && x.Op != token.MUL {
+					return pval{}, false
+				}
 				switch x.Op {
+				case token.MUL:
+					// load of an element of a constant table (tables map below)
+					el, ok := elems[x.X]
+					if !ok {
+						return pval{}, false
+					}
+					env[x] = el
 				case token.NOT:
 					env[x] = pval{isBool: true, b: !a.b}
 				case token.SUB:
@@ -333,4 +356,32 @@ func pureCall(c *ssa.CallCommon, av []pval, get func(ssa.Value) (pval, bool), de
 		return pval{}, false
 	}
 	return evalPure(t, av, depth+1)
+}
+
+// tableElem: element i of the constant table g; false if g is not a constant table or i is out of range (a panic).
+func tableElem(g *ssa.Global, i int64) (pval, bool) {
+	tbl, ok := foldProg.ConstTable(g)
+	if !ok {
+		return pval{}, false
+	}
+	arr := g.Type().(*types.Pointer).Elem().Underlying().(*types.Array)
+	if i < 0 || i >= arr.Len() {
+		return pval{}, false
+	}
+	k := tbl[i]
+	eb, _ := arr.Elem().Underlying().(*types.Basic)
+	if eb == nil {
+		return pval{}, false
+	}
+	if eb.Info()&types.IsBoolean != 0 {
+		return pval{isBool: true, b: k != nil && k.Value != nil && constant.BoolVal(k.Value)}, true
+	}
+	if eb.Info()&types.IsInteger != 0 {
+		if k == nil || k.Value == nil {
+			return pval{i: 0}, true
+		}
+		n, ok := constant.Int64Val(k.Value)
+		return pval{i: n}, ok
+	}
+	return pval{}, false
 }
